@@ -34,7 +34,7 @@ func diffClass(d string) string {
 
 var (
 	nOps, nReopens, nRejected, nAmbiguous, nSegments, nRollAtSegStart, nLeaseDiff atomic.Int64
-	sampled                                                                     atomic.Int64
+	sampled                                                                       atomic.Int64
 )
 
 func segmentCount(dir string) int {
